@@ -55,6 +55,28 @@ fn main() {
         }
         return;
     }
+    if args.len() >= 4 && args[1] == "tryseq" {
+        // debugging aid: chalk-verif tryseq <program-file> <goal>...   (all goals in order on ONE solver per solver kind)
+        drive::install_panic_hook();
+        let text = std::fs::read_to_string(&args[2]).expect("program file");
+        for choice in drive::both() {
+            if let Ok(l) = drive::load(&text, choice, false) {
+                drive::with_program(&l, || {
+                    let mut s = choice.into_solver();
+                    for g in &args[3..] {
+                        if let Ok(goal) = drive::lower_goal_text(&l, g) {
+                            use chalk_solve::ext::GoalExt;
+                            let peeled = goal.into_peeled_goal(chalk_integration::interner::ChalkIr);
+                            let db = drive::FaultDb::new(&*l.program, drive::solver_name(&choice));
+                            let o = drive::solve(&mut *s, &db, &peeled);
+                            println!("{}: {} => {} (callbacks {})", drive::solver_name(&choice), g, o.show(), db.calls.get());
+                        }
+                    }
+                });
+            }
+        }
+        return;
+    }
     if args.len() >= 3 && args[1] == "corpus" {
         let c = corpus::load_corpus();
         let k: usize = args[2].parse().unwrap_or(0);
